@@ -2,6 +2,7 @@
 import math
 import numpy as np
 from hypothesis import strategies as st
+from vlib import strategies as S
 
 from vlib.runner import Outcome, cut, CutError
 from vlib import synth, ref
@@ -49,16 +50,16 @@ def _point(draw):
     res = []
     for k in (tk, pk):
         kind = draw(st.sampled_from(INKINDS)) if k == 'in' else k
-        res.append([kind, draw(st.integers(0, 5)), draw(st.floats(0.01, 0.99)), draw(st.floats(0.0, 1.0))])
+        res.append([kind, draw(S.ints(0, 5)), draw(st.floats(0.01, 0.99)), draw(st.floats(0.0, 1.0))])
     return res
 
 
 @st.composite
 def _case(draw):
     pt = draw(_point())
-    nT = draw(st.integers(1, 6))
-    nP = draw(st.integers(1, 6))
-    nW = draw(st.integers(1, 6))
+    nT = draw(S.ints(1, 6))
+    nP = draw(S.ints(1, 6))
+    nW = draw(S.ints(1, 6))
     T0 = draw(st.floats(40.0, 2000.0))
     dT = draw(st.lists(st.floats(1.0, 800.0), min_size=nT - 1, max_size=nT - 1))
     P0 = draw(st.floats(-4.0, 6.0))
@@ -78,8 +79,8 @@ def _case(draw):
         delta = [d / 4.0 for d in delta]
     sub = None
     if nW > 1 and draw(st.booleans()):
-        a = draw(st.integers(0, nW - 1))
-        b = draw(st.integers(a, nW - 1))
+        a = draw(S.ints(0, nW - 1))
+        b = draw(S.ints(a, nW - 1))
         sub = [a, b]
     # history on the live object before the judged query: an earlier query in the other mode followed by
     # set_interpolation_mode, or an earlier query elsewhere in the same mode
